@@ -18,6 +18,7 @@ package main
 
 import (
 	"bytes"
+	"crypto/sha256"
 	"encoding/hex"
 	"encoding/json"
 	"errors"
@@ -46,6 +47,7 @@ const (
 	clsLocked    = 6
 	clsOKOther   = 7 // no error but not the original data
 	clsBadType   = 8
+	clsPanic     = 9
 )
 
 // DeriveKey classes.
@@ -92,20 +94,22 @@ type c17Obs struct {
 	Accepted  []string    `json:"accepted,omitempty"`
 	NEncrypts int         `json:"n_encrypts,omitempty"`
 	// pass / params
-	Created     string    `json:"created,omitempty"`
-	Salt        string    `json:"salt,omitempty"`
-	Digest      string    `json:"digest,omitempty"`
-	Marshalled  string    `json:"marshalled,omitempty"`
-	Exact       int       `json:"exact"`
-	Restart     int       `json:"restart"`
-	Near        []nearObs `json:"near,omitempty"`
-	Lens        [][2]int  `json:"lens,omitempty"`
-	ParamFlips  []int     `json:"param_flips,omitempty"`
-	Skipped     int       `json:"skipped,omitempty"`
-	Panics      int       `json:"panics,omitempty"`
-	KdfErrors   int       `json:"kdf_errors,omitempty"`
-	PanicSample string    `json:"panic_sample,omitempty"`
-	Calls       int       `json:"calls"` // Decrypt / DeriveKey / Unmarshal calls made for this case
+	Created           string    `json:"created,omitempty"`
+	Salt              string    `json:"salt,omitempty"`
+	Digest            string    `json:"digest,omitempty"`
+	Marshalled        string    `json:"marshalled,omitempty"`
+	Exact             int       `json:"exact"`
+	Restart           int       `json:"restart"`
+	Near              []nearObs `json:"near,omitempty"`
+	Lens              [][2]int  `json:"lens,omitempty"`
+	ParamFlips        []int     `json:"param_flips,omitempty"`
+	Skipped           int       `json:"skipped,omitempty"`
+	Panics            int       `json:"panics,omitempty"`
+	KdfErrors         int       `json:"kdf_errors,omitempty"`
+	PanicSample       string    `json:"panic_sample,omitempty"`
+	LongPWHash        string    `json:"long_pw_sha256,omitempty"` // class of DeriveKey(sha256(pw)) when |pw| > 64
+	HmacEquivAccepted int       `json:"hmac_equiv_accepted,omitempty"`
+	Calls             int       `json:"calls"` // Decrypt / DeriveKey / Unmarshal calls made for this case
 }
 
 type c17Case struct {
@@ -188,6 +192,26 @@ func clsMgr(pt, out []byte, err error) int {
 func tamper(ct, pt []byte, dec func([]byte) ([]byte, error), cls func(pt, out []byte, err error) int,
 	expectRefusal bool, obs *c17Obs, o *oracle) {
 
+	// a run-time panic inside Decrypt (e.g. slicing a too short input) is
+	// neither data nor an error: class 9, its own violation kind
+	rawDec := dec
+	errPanicked := errors.New("panic")
+	dec = func(b []byte) (out []byte, err error) {
+		defer func() {
+			if r := recover(); r != nil {
+				out, err = nil, fmt.Errorf("%w: %v", errPanicked, r)
+				o.add("decrypt_panicked")
+			}
+		}()
+		return rawDec(b)
+	}
+	rawCls := cls
+	cls = func(pt, out []byte, err error) int {
+		if errors.Is(err, errPanicked) {
+			return clsPanic
+		}
+		return rawCls(pt, out, err)
+	}
 	out, err := dec(ct)
 	obs.Calls++
 	obs.RT = cls(pt, out, err)
@@ -349,6 +373,30 @@ func derive(sk *snacl.SecretKey, pw []byte) (cls int, msg string) {
 	return dkKdfError, err.Error()
 }
 
+// hmacBlock is the 64-byte HMAC-SHA256 key block of a passphrase: the only
+// way a passphrase enters scrypt (PBKDF2-HMAC-SHA256).  Computed here from
+// the definition of HMAC, independently of snacl.
+func hmacBlock(pw []byte) [64]byte {
+	var b [64]byte
+	if len(pw) > 64 {
+		h := sha256.Sum256(pw)
+		copy(b[:], h[:])
+	} else {
+		copy(b[:], pw)
+	}
+	return b
+}
+
+// acceptedKind is the violation kind for an accepted passphrase that is not
+// the creating one: passphrases with the creating passphrase's HMAC key
+// block are the recorded finding, anything else is a fresh violation.
+func acceptedKind(created, accepted []byte) string {
+	if hmacBlock(created) == hmacBlock(accepted) {
+		return "hmac_equivalent_passphrase_accepted"
+	}
+	return "wrong_passphrase_accepted"
+}
+
 type near struct {
 	name string
 	pw   []byte
@@ -385,6 +433,8 @@ func nearMisses(pw []byte, all bool) []near {
 		add("swap_ends", b)
 	}
 	add("append_nul", append(append([]byte{}, pw...), 0))
+	add("append_2nul", append(append([]byte{}, pw...), 0, 0))
+	add("append_nul_a", append(append([]byte{}, pw...), 0, 'a'))
 	add("append_space", append(append([]byte{}, pw...), ' '))
 	add("append_a", append(append([]byte{}, pw...), 'a'))
 	add("prepend_nul", append([]byte{0}, pw...))
@@ -460,7 +510,24 @@ func runPass(in c17Input, allBits bool) c17Case {
 		obs.Calls += 2
 		obs.Near = append(obs.Near, nearObs{nm.name, hx(nm.pw), c1, c2})
 		if c1 == dkAccepted || c2 == dkAccepted {
-			o.add("wrong_passphrase_accepted")
+			k := acceptedKind(pw, nm.pw)
+			o.add(k)
+			if k == "hmac_equivalent_passphrase_accepted" {
+				obs.HmacEquivAccepted++
+			}
+		}
+	}
+	// a passphrase longer than the HMAC block and its SHA-256 (model-free:
+	// the model's hash is not SHA-256, so this is judged by the oracle only)
+	if len(pw) > 64 {
+		h := sha256.Sum256(pw)
+		sk.Zero()
+		c, _ := derive(sk, h[:])
+		obs.Calls++
+		obs.LongPWHash = fmt.Sprint(c)
+		if c == dkAccepted {
+			o.add(acceptedKind(pw, h[:]))
+			obs.HmacEquivAccepted++
 		}
 	}
 	// and the right one still works after all the rejected attempts
@@ -489,6 +556,9 @@ func runPass(in c17Input, allBits bool) c17Case {
 		if L == len(m) && err != nil {
 			o.add("marshal_roundtrip_mismatch")
 		}
+	}
+	if obs.HmacEquivAccepted > 0 {
+		cs.Tags = append(cs.Tags, "hmac_equivalent_near_miss_accepted")
 	}
 	switch {
 	case len(pw) == 0:
